@@ -243,6 +243,7 @@ pub fn gen_date(c: &mut Ctx) -> NaiveDate {
 }
 
 pub fn run(c: &mut Ctx) {
+    crate::aliases::c01(c);
     // ---- exhaustive blocks as digests ----------------------------------------------------------
     let mut blocks: Vec<(i32, i32)> = vec![];
     if c.tier == Tier::Quick {
